@@ -206,6 +206,7 @@ func cmdCheck(args []string) int {
 	var violations []*Violation
 	var knownHits []string
 	var eng *Engine
+	tvCompared := 0
 	cfgs := []*PropCfg{pc}
 	for _, a := range pc.Also {
 		apc, err := loadPropCfg(filepath.Join(verifDir, "harness", a+".json"))
@@ -242,6 +243,19 @@ func cmdCheck(args []string) int {
 			eng.branchMs = 5000
 			eng.branchSlowMs = 60000
 			eng.crossCheck = true
+		}
+		if ci == 0 && *only == "" {
+			// translator / model validation against the native build (every run)
+			golden, gerr := tvGolden(repoDir, verifDir)
+			if gerr != nil {
+				inconcl = append(inconcl, "translator validation: "+gerr.Error())
+			} else {
+				n, bad := eng.runTV(golden)
+				tvCompared = n
+				for _, b := range bad {
+					inconcl = append(inconcl, "translator validation mismatch: "+b)
+				}
+			}
 		}
 		for _, h := range hs {
 			if !tierMatch(h, tier) || (*only != "" && h.Name != *only) {
@@ -339,6 +353,13 @@ func cmdCheck(args []string) int {
 		}
 		exit = 2
 	}
+	nativeConfirmed = 0
+	for _, v := range confirmed {
+		if st, _ := v.Extra["native_replay"].(string); strings.HasPrefix(st, "confirmed") {
+			nativeConfirmed++
+		}
+	}
+	tvTotal = tvCompared
 	writeEvidence(verifDir, prop, tier, seed, eng, pc, results, time.Since(start), inconcl, len(confirmed), knownHits)
 	if exit == 0 {
 		nA, nP := 0, 0
@@ -351,6 +372,8 @@ func cmdCheck(args []string) int {
 	return exit
 }
 
+var tvTotal, nativeConfirmed int
+
 func writeEvidence(verifDir, prop, tier string, seed int, eng *Engine, pc *PropCfg, results []*HarnessResult, wall time.Duration, inconcl []string, nviol int, knownHits []string) {
 	states, trans := 0, int64(0)
 	asserts := 0
@@ -358,7 +381,7 @@ func writeEvidence(verifDir, prop, tier string, seed int, eng *Engine, pc *PropC
 	funcs := map[string]int{}
 	models := map[string]bool{}
 	var harnessInfo []map[string]interface{}
-	replays := 0
+	replays := tvTotal + nativeConfirmed
 	for _, r := range results {
 		states += r.Paths
 		trans += r.Steps
@@ -447,6 +470,8 @@ func writeEvidence(verifDir, prop, tier string, seed int, eng *Engine, pc *PropC
 			"bounds": pc.Bounds, "outside_claim": pc.Outside,
 			"queries": map[string]interface{}{"total": atomic.LoadInt64(&stats.Queries), "sat": atomic.LoadInt64(&stats.Sat), "unsat": atomic.LoadInt64(&stats.Unsat), "unknown": atomic.LoadInt64(&stats.Unknown), "assertion_queries_unsat": asserts, "solver_errors": atomic.LoadInt64(&stats.Errors)},
 			"solver_time": st, "inconclusive": inconcl, "known_findings_hit": knownHits,
+			"translator_validation": map[string]interface{}{"observations_identical_native_vs_engine": tvTotal, "programs": tvNames(), "what": "rt/verifrt/tv.go programs (integer/slice/map/defer semantics, bytes.Buffer, time, UTF-8 iteration, text encoders, fmt, errors.Is/As, net errors, field arithmetic incl. SqrtRatio, net.IP) run natively and by the engine with concrete values; observation lists compared"},
+			"native_replays_confirmed": nativeConfirmed,
 		},
 		"assumptions": assumptions, "wall_s": wall.Seconds(), "violations": nviol,
 	}
